@@ -11,18 +11,7 @@
 From Icv Require Import Base.Tac Tp.TpModel Tp.TpProofs Tp.TpObs Tp.TpOracleProofs Tp.TpCal Tp.TpCalObs.
 Local Open Scope Z_scope.
 
-(* ---------------- calendar sanity (finite, bound in the statement) ---------------- *)
-
-Fixpoint tp_zrange (from : Z) (n : nat) : list Z :=
-  match n with O => [] | S k => from :: tp_zrange (from + 1) k end.
-
-(* every day from 1970-01-01 to 2134-04-11 (60000 days): days -> civil -> days is the identity and
-   the civil date is well-formed *)
-Theorem tp_civil_roundtrip_60000 :
-  forallb (fun z => let '(y, m, d) := tp_civil_from_days z in
-                    (tp_days_from_civil y m d =? z) && (1 <=? m) && (m <=? 12) && (1 <=? d) && (d <=? 31))
-          (tp_zrange 0 60000) = true.
-Proof. vm_compute. reflexivity. Qed.
+(* ---------------- calendar sanity (the round-trip theorems over all of Z are in Tp/TpCivil.v) ---------------- *)
 
 Example tp_wday_saturday : tp_wday (tp_days_from_civil 2033 6 4) = 6.
 Proof. reflexivity. Qed.
